@@ -196,6 +196,7 @@ type c10World struct {
 	pods      []c10PodState
 	nt        bool
 	noGuard   bool
+	faulted   bool // some step of the history had an injected fault
 	closed    bool // closed-loop scenario (no seeds): oracle (5) and end-state oracles apply
 	edgeKnown int
 }
@@ -693,8 +694,12 @@ func (w *c10World) podOp(k string, i, node int) {
 		if w.pods[i].inc%2 == 0 {
 			p.Status.Phase = corev1.PodFailed
 		}
-		if err := w.base.Update(ctx, p); err != nil {
+		// pods have a status subresource in the fake client, as in the API server
+		if err := w.base.Status().Update(ctx, p); err != nil {
 			panic(err)
+		}
+		if q := w.getPod(i); q == nil || !c10Exited(q) {
+			panic("harness: pod status update did not persist")
 		}
 		w.c.Trace("  pod %s sandbox exited (%s)", c10PodName(i), p.Status.Phase)
 	case "gone":
@@ -888,9 +893,11 @@ func (w *c10World) runOp(i int, op c10Op) {
 		}
 		if op.CF != 0 {
 			w.c.Label("fault:cloud")
+			w.faulted = true
 		}
 		if op.AF != 0 {
 			w.c.Label("fault:api")
+			w.faulted = true
 		}
 	}
 	w.mu.Lock()
@@ -959,17 +966,27 @@ func (w *c10World) endStep() {
 	if !w.closed {
 		return
 	}
-	// C10 (1) semantics of "bound": a record in phase Bind (not being deleted) has its interfaces attached
+	// C10 (1) semantics of "bound"/"unbound" (types.go: "Bind: ENI is bind to ECS", "Unbind: ENI is not bind
+	// to ECS"): a record in phase Bind (not being deleted) has its interfaces attached to status.instanceID,
+	// a record in phase Unbind has none of them attached
 	for i := range list.Items {
 		r := &list.Items[i]
+		if r.Status.Phase == v1beta1.ENIPhaseUnbind && r.DeletionTimestamp.IsZero() {
+			for _, a := range r.Spec.Allocations {
+				if e, ok := w.cloud.get(a.ENI.ID); ok && e.Instance != "" {
+					w.c.Fatalf("C10(1): step %d (%s): record %s is in phase Unbind but interface %s is still attached (status=%q instance=%q)",
+						w.step, w.actor, r.Name, a.ENI.ID, e.Status, e.Instance)
+				}
+			}
+		}
 		if r.Status.Phase != v1beta1.ENIPhaseBind || !r.DeletionTimestamp.IsZero() {
 			continue
 		}
 		for _, a := range r.Spec.Allocations {
 			e, ok := w.cloud.get(a.ENI.ID)
 			if !ok || e.Status != aliyunClient.ENIStatusInUse || e.Instance != r.Status.InstanceID {
-				w.c.Fatalf("C10(1): step %d (%s): record %s is in phase Bind (instance %s) but interface %s is %+v (exists=%v)",
-					w.step, w.actor, r.Name, r.Status.InstanceID, a.ENI.ID, e, ok)
+				w.c.Fatalf("C10(1): step %d (%s): record %s is in phase Bind (instance %s) but interface %s is status=%q instance=%q (exists=%v)",
+					w.step, w.actor, r.Name, r.Status.InstanceID, a.ENI.ID, e.Status, e.Instance, ok)
 			}
 		}
 	}
@@ -1057,6 +1074,16 @@ func (w *c10World) endState() {
 				w.c.Label("end:fixed-alive-attach-refused")
 				continue
 			}
+			if w.faulted {
+				// C11 does not quantify over faults: after a failed attach/status write the record can
+				// legitimately be stuck until the pod is deleted again; only safety is judged then
+				if rec.Phase != "Bind" || rec.UID != string(pod.UID) {
+					w.c.Labelf("end:fixed-alive-not-bound-after-faults:%s", c10PhaseName(rec.Phase))
+				} else {
+					w.c.Label("end:fixed-alive-bound-after-faults")
+				}
+				continue
+			}
 			w.c.Label("end:fixed-alive")
 			if rec.Phase != "Bind" || rec.UID != string(pod.UID) {
 				w.c.Fatalf("C11(a): fixed-IP pod %s uid=%s is running on %s but after settling its record is phase %q uid=%s deleting=%v",
@@ -1065,7 +1092,8 @@ func (w *c10World) endState() {
 			for _, a := range rec.Allocs {
 				e, ok := w.cloud.get(a.ENI)
 				if !ok || e.Status != aliyunClient.ENIStatusInUse || e.Instance != c10Instance(w.pods[i].node) || e.IPv4 != a.V4 {
-					w.c.Fatalf("C11(a): fixed-IP pod %s is bound on %s but interface %s is %+v (exists=%v)", name, pod.Spec.NodeName, a.ENI, e, ok)
+					w.c.Fatalf("C11(a): fixed-IP pod %s is bound on %s but interface %s is status=%q instance=%q ipv4=%q, record has ipv4=%q (exists=%v)",
+						name, pod.Spec.NodeName, a.ENI, e.Status, e.Instance, e.IPv4, a.V4, ok)
 				}
 			}
 			if w.pods[i].inc > 1 {
